@@ -157,6 +157,9 @@ type replayInput struct {
 	kind     string
 	stream   *streamScript
 	note     string
+	argTerms []struct{ term, typ string }
+	paramNames []string
+	argDecls []string
 	callArgs string
 	dataName string
 	recvName string
@@ -202,6 +205,9 @@ func extractInput(w *World, vc *VC, ob *Obligation, cond string, kind string) *r
 	in := &replayInput{recvType: m[1], method: m[2], fields: map[string]string{}, kind: kind}
 	fn := vc.root
 	in.recvName = fn.Params[0].Name()
+	for _, p := range fn.Params[1:] {
+		in.paramNames = append(in.paramNames, p.Name())
+	}
 	in.nres = fn.Signature.Results().Len()
 	if kind == "ensures" && ob.Fn == root {
 		if n, err := parseSpec(ob.Desc); err == nil {
@@ -226,13 +232,29 @@ func extractInput(w *World, vc *VC, ob *Obligation, cond string, kind string) *r
 	if dataLen == "" {
 		// methods without a byte-slice parameter: String(), WellFormed(), dump(w), WriteTo(w)
 		np := len(fn.Params) - 1
-		if !(np == 0 || (np == 1 && isIfaceT(fn.Params[1].Type()))) {
-			return nil
-		}
 		in.callArgs = ""
-		if np == 1 {
-			in.callArgs = "io.Discard"
+		var argTerms []struct{ term, typ string }
+		for _, p := range fn.Params[1:] {
+			switch {
+			case isIfaceT(p.Type()):
+				argTerms = append(argTerms, struct{ term, typ string }{"", "io.Discard"})
+			case isStringT(p.Type()) || isSliceT(p.Type()) && typeStr(elemOf(p.Type())) == "uint8":
+				argTerms = append(argTerms, struct{ term, typ string }{findDecl(vc, "f1_p_"+p.Name(), 1), "bytes:" + types.TypeString(p.Type(), func(*types.Package) string { return "" })})
+			default:
+				l, ok := numLeaf(p.Type())
+				if !ok && len(flatten(p.Type())) == 1 && flatten(p.Type())[0].Kind == lkBool {
+					l, ok = flatten(p.Type())[0], true
+				}
+				if !ok {
+					return nil
+				}
+				t := findDecl(vc, "f1_p_"+p.Name(), 0)
+				vc.termSorts[t] = l.Sort
+				argTerms = append(argTerms, struct{ term, typ string }{t, "num:" + types.TypeString(p.Type(), func(*types.Package) string { return "" })})
+			}
 		}
+		_ = np
+		in.argTerms = argTerms
 		dataLen = "0"
 		terms = append(terms, "0")
 		for k := 0; k < maxBytes; k++ {
@@ -286,6 +308,11 @@ func extractInput(w *World, vc *VC, ob *Obligation, cond string, kind string) *r
 			fieldTerms = append(fieldTerms, struct{ name, term string; l Leaf }{st.Field(i).Name(), t, ls[0]})
 			terms = append(terms, t)
 			vc.termSorts[t] = ls[0].Sort
+		}
+	}
+	for _, at := range in.argTerms {
+		if at.term != "" {
+			terms = append(terms, at.term)
 		}
 	}
 	recvInitTerm := ""
@@ -342,6 +369,41 @@ func extractInput(w *World, vc *VC, ob *Obligation, cond string, kind string) *r
 			}
 		}
 	}
+	if len(in.argTerms) > 0 {
+		var decls, names []string
+		for i, at := range in.argTerms {
+			pn := in.paramNames[i]
+			switch {
+			case at.term == "":
+				names = append(names, at.typ)
+				continue
+			case strings.HasPrefix(at.typ, "bytes:"):
+				n, _ := smtInt(vals[at.term])
+				if n < 0 || n > 1<<16 {
+					n = 0
+				}
+				decls = append(decls, fmt.Sprintf("%s := %s(make([]byte, %d))", pn, at.typ[6:], n))
+			default:
+				v := vals[at.term]
+				lit := v
+				if v == "true" || v == "false" {
+					lit = v
+				} else if n, ok := smtInt(v); ok {
+					lit = strconv.FormatInt(n, 10)
+				} else {
+					lit = "0"
+				}
+				if strings.HasSuffix(at.typ, "bool") {
+					decls = append(decls, fmt.Sprintf("%s := %s", pn, lit))
+				} else {
+					decls = append(decls, fmt.Sprintf("%s := %s(%s)", pn, at.typ[4:], lit))
+				}
+			}
+			names = append(names, pn)
+		}
+		in.argDecls = decls
+		in.callArgs = strings.Join(names, ", ")
+	}
 	if recvInitTerm != "" {
 		if n, ok := smtInt(vals[recvInitTerm]); ok {
 			in.recvInit = strconv.FormatInt(n, 10)
@@ -380,7 +442,7 @@ func findDecl(vc *VC, prefix string, k int) string {
 
 func (in *replayInput) testSource() string {
 	var b strings.Builder
-	b.WriteString("package mq\n\nimport (\n\t\"fmt\"\n\t\"io\"\n\t\"reflect\"\n\t\"testing\"\n)\n\nvar _ = io.Discard\nvar _ = reflect.DeepEqual\n")
+	b.WriteString("package mq\n\nimport (\n\t\"fmt\"\n\t\"io\"\n\t\"reflect\"\n\t\"strings\"\n\t\"testing\"\n)\n\nvar _ = io.Discard\nvar _ = reflect.DeepEqual\nvar _ = strings.Contains\n")
 	b.WriteString(replayHelpers)
 	b.WriteString("\nfunc TestVerifReplay(t *testing.T) {\n")
 	dn := in.dataName
@@ -417,6 +479,9 @@ func (in *replayInput) testSource() string {
 	}
 	fmt.Fprintf(&b, "\told_%s := new(%s)\n\t*old_%s = *%s\n\t_ = old_%s\n", rn, in.recvType, rn, rn, rn)
 	fmt.Fprintf(&b, "\told_%s := append([]byte(nil), %s...)\n\t_ = old_%s\n", dn, dn, dn)
+	for _, d := range in.argDecls {
+		b.WriteString("\t" + d + "\n")
+	}
 	b.WriteString("\tdefer func() {\n\t\tif e := recover(); e != nil {\n\t\t\tfmt.Println(\"REPLAY-PANIC:\", e)\n\t\t}\n\t}()\n")
 	args := in.callArgs
 	if in.hasData {
